@@ -506,6 +506,8 @@ class DatasetProcessor:
         if self.args.read_assignments:
             # no alignment files in this mode, the number of unaligned reads comes with the saved assignments
             self.alignment_stat_counter.add(AlignmentType.unaligned, unaligned_reads)
+            # ... and so do the file labels of the run that saved them (one read group per input file)
+            self.args.use_technical_replicas = self.args.read_group == "file_name" and len(self.all_read_groups) > 1
 
         polya_fraction = polya_found / total_assignments if total_assignments > 0 else 0.0
         logger.info("Total assignments used for analysis: %d, polyA tail detected in %d (%.1f%%)" %
